@@ -155,6 +155,7 @@ def run(prop, tier):
     res = core.run_slices(exexx, ['--suite', prop, '--tier', 'lite' if tier == 'quick' else 'quick'], timeout=timeout, result=res, tag='C++ callers (g++ -O2)')
     # the same calls through the parenthesised function name: the exported function, not a function-like macro of that name
     res = core.run_slices(exe, ['--suite', prop, '--tier', 'lite' if tier == 'quick' else 'quick', '--callmode', '1'], timeout=timeout, result=res, tag='calls through (name)(...)')
+    res = core.run_slices(exe, ['--suite', prop, '--tier', 'lite' if tier == 'quick' else 'quick', '--callmode', '2'], timeout=timeout, result=res, tag='pointer arguments spelled as untyped sums')
     # the object under test at other addresses (16-byte boundary + 1 and + 4; all eight residues are C15's subject)
     for off in (1, 4):
         res = core.run_slices(exe, ['--suite', prop, '--tier', 'lite' if tier == 'quick' else 'quick', '--off', str(off)], timeout=timeout, result=res, tag='object at a 16-byte boundary + %d' % off)
